@@ -85,7 +85,7 @@ def _raw(spec):
             if spec.get('order') == 'sorted':
                 # concatenated segments instead of shuffled frames
                 a[idx] = a[idx][np.argsort(labels, kind='stable')]
-        a = a * float(spec.get('scale', 1.0))
+        a = a * float(spec.get('scale', 1.0)) + float(spec.get('offset', 0.0))
     elif kind == 'affiliation':
         # strictly positive, sums to one over axis -2
         a = rng.uniform(0.05, 1.0, size=shape)
@@ -118,6 +118,9 @@ def _raw(spec):
                         size=shape).astype(float)
     elif kind == 'bool':
         a = rng.uniform(size=shape) < float(spec.get('p', 0.5))
+        if spec.get('some_true'):
+            a[..., 0] = True
+            a[..., -1] = True
     elif kind == 'activity':
         # boolean source activity (..., K, N): every frame has >= 1 active
         # source, every source is active somewhere
